@@ -14,7 +14,7 @@ CHECKS = {
          "At every Close inside generated histories (with rollovers, removals and GC cycles before) the closed directory is reopened through the snapshot path, the rescan path and with an unusable snapshot; all three must equal the model and resolve every bucket to the same entries.",
          "same configuration on reopen; GC before Close runs on flushed state", "5 C02"),
  "C03": ("fault_enumeration", "crash-point imaging at hook points + torn-write synthesis + recovery oracle",
-         "One single-threaded execution yields the directory image a process crash would leave at every file-system step point (hooks sit before each mutation); torn appends are synthesised between consecutive images; every image is reopened and checked key by key against the durable-or-acknowledged set, then driven further through GC and reopen with fsck. All step points of the executed histories are enumerated; histories are sampled.",
+         "One single-threaded execution yields the directory image a process crash would leave at every file-system step point (hooks sit before each mutation); torn appends are synthesised between consecutive images; every image is reopened and checked key by key against the durable-or-acknowledged set, then driven further through GC and reopen with fsck. A second family produces crash states in which a flush and a collector are both mid-way (one parked at a step point while the other runs, so images stay point-in-time), a third one bursts of >1024 frees between flushes. All step points of the executed histories are enumerated; histories are sampled.",
          "process-crash model (kernel-visible writes survive); crash points of executed single-threaded histories; equal-length in-place rewrites, renames, truncations atomic", "5 C03"),
  "C04": ("exploration", "reference-model monitor with GC cycles interleaved, full probe after every cycle",
          "Generated histories interleave primary and index GC cycles (all thresholds, scan-free on/off, with and without a preceding flush, cycles stopped midway by a synthetic deadline and resumed) with ordinary calls; after every cycle every key is probed against the model and the history ends with reopen.",
@@ -26,10 +26,10 @@ CHECKS = {
          "Same history oracle (GC is invisible to the model) on the multihash primary with 40-300 byte files so that collectors mark, merge, truncate, relocate and unlink while callers run; evidence reports GC hook events inside client activity.",
          "one goroutine per harness-driven collector, never combined with background collectors", "5 C06"),
  "C07": ("exploration", "independent fsck reader evaluated at every quiescent point",
-         "An independent parser of all on-disk formats evaluates the statement's invariant list after every Flush/Close of histories from the C01, C04 and C02 generators (post-crash and post-concurrency states are examined inside C03/C05/C06 with the same fsck).",
+         "An independent parser of all on-disk formats evaluates the statement's invariant list after every Flush/Close of histories from the C01, C04 and C02 generators plus a crash slice of its own: fsck with the log-replay bucket table on crash images (torn variants included), on every image of the post-recovery continuation and on the closed store (post-concurrency states are examined inside C05/C06 with the same fsck).",
          "formats as read from the code (DESIGN.md appendix A); invariant exactly as stated", "5 C07"),
  "C08": ("exploration", "bounded-exhaustive + random sequences at the index API with lookup and structure monitors",
-         "All valid sequences up to the bound over an 8-key universe containing every shared-prefix shape, each in two flush variants, plus random longer sequences; after every operation every key is looked up and the stored prefixes are read back and checked (sorted, prefix-free, prefix of own key, other entries untouched).",
+         "All valid sequences up to the bound over an 8-key universe containing every shared-prefix shape, each in two flush variants, plus random longer sequences; after every operation every key is looked up and the stored prefixes are read back and checked (sorted, prefix-free, prefix of own key, other entries untouched); each sequence ends with a rescanning reopen of the index and repeated lookups.",
          "exhaustive only within the stated bound; Update/Remove issued for present keys only", "5 C08"),
  "C09": ("exploration", "reference-model monitor across bit-size changes + crash-point imaging inside the translation",
          "Every ordered pair of bit sizes over {8,9,12,15,16,17,20,24} is exercised on generated histories, chains of changes are interleaved with file-size-mismatch opens that must be refused with the specific error types, and every hook point inside a translating OpenStore is imaged (torn variants included) and reopened with old and new bits: a successful open must show every key.",
@@ -44,10 +44,10 @@ CHECKS = {
          "Liveness restated as bounded progress in flushes: the notice a writer registered must be closed once a Flush started after the registration has returned; decided by a non-blocking receive on the channel, never by wall-clock time. Gates place a flush between decision and registration (single writer), two writers around one flush, registration during a flush's commit.",
          "flush failures not injected; gate expiry = inconclusive", "5 C12"),
  "C13": ("exploration", "multiset-conservation monitor over freelist append stream, hand-over batches and deleted bits",
-         "With a flush after every mutating call the multiset of locations that stopped being current (from fsck's decoded layout) must equal the multiset of freelist entries appended (file + batches captured at the hand-over hook); consumed batches must be dead afterwards; no location marked twice or while current.",
+         "With a flush after every mutating call the multiset of locations that stopped being current (from fsck's decoded layout) must equal the multiset of freelist entries appended (file + batches captured at the hand-over hook); consumed batches must be dead afterwards; no location marked twice or while current; every entry ever handed over must be dead once no hand-over file exists. Two further families: a concurrent stress of the freelist package (producers / Flush loop / ToGC consumer: handed over + left in file == produced) and a crash slice (no location that a restarted store would treat as current may be on the freelist or marked deleted, on images taken at every hook point).",
          "sequential histories; locations never reused in the explored range", "5 C13"),
  "C14": ("exploration", "bounded-exhaustive + random + concurrent runs at the filecache API with a shadow table of lent handles",
-         "All operation sequences up to the bound over three names and capacities incl. 0 are executed on real files; after every step the shadow table checks that lent handles are open and refer to their file, that Len/Cap/descriptor accounting identities hold and legitimate Closes succeed; a concurrent stress part (race build) checks that a held handle never fails with ErrClosed.",
+         "All operation sequences up to the bound over three names and capacities incl. 0 are executed on real files; after every step the shadow table checks that lent handles are open and refer to their file, that Len/Cap/descriptor accounting identities hold and legitimate Closes succeed; a concurrent stress part (race build) checks that a held handle never fails with ErrClosed, and a store-level part runs lookups, whole-store iterations and cache resizing through a 1-2 entry cache on a flushed store (a closed-file error there means a user of the cache gave a handle back while another still held it).",
          "eviction order not modelled; exhaustive within the stated bound only", "5 C14"),
  "C16": ("exploration", "Go race detector (happens-before) over dense concurrent compositions of the public API, flusher, size queries, cache resizing and both collectors",
          "Every execution of the race build is observed by the race detector; reports with a go-storethehash frame are verdicts, deduplicated by the pair of first store frames; runtime fatal errors end the worker and are attributed to the case.",
